@@ -1,9 +1,46 @@
-/- Driver operations for C17 (stub: to be filled by the property's model). -/
+/- Driver operations for C17 (memory reallocation).  Mathlib-free.
+
+Request:  {"op": "redist_f64" | "redist_f32" | "redist_rat", "rank": k,
+           "variant": "new" (current code) | "running" (before b9b95e4) | "old" (before 1e4f52c),
+           "axes": [[key, dim, score], ...]}      (keys are integers; axes in the implementation's iteration order;
+                                                   score: hex bit pattern (f64 / f32) or "p/q")
+Reply:    {"ok": [[dim, [[key, rank], ...]], ...]}   (groups in dict order, members in sorted order)
+       or {"err": "baseRank" | "rankExceedsDim" | "overBudget", "detail": [a, b]}
+-/
 import PrecondVerif.Kit.Proto
+import PrecondVerif.Model.Realloc
 
 namespace PrecondVerif.Drv.C17
-open Lean PrecondVerif.Proto
+open Lean PrecondVerif.Proto PrecondVerif.Realloc
 
-def ops : List Op := []
+def parseAxis {α} (score : Json → R α) (j : Json) : R (Nat × Nat × α) := do
+  match (← asList j) with
+  | [k, d, s] => pure ((← asNat k), (← asNat d), (← score s))
+  | _ => .error "axis must be [key, dim, score]"
+
+def resultJson : Except Err (List (Nat × List (Nat × Int))) → Json
+  | .ok gs => obj [("ok", listToJson (fun (g : Nat × List (Nat × Int)) =>
+      Json.arr #[toJson g.1, listToJson (fun (p : Nat × Int) => Json.arr #[toJson p.1, toJson p.2]) g.2]) gs)]
+  | .error (.baseRank a b) => obj [("err", Json.str "baseRank"), ("detail", intsToJson [a, b])]
+  | .error (.rankExceedsDim a b) => obj [("err", Json.str "rankExceedsDim"), ("detail", intsToJson [a, b])]
+  | .error (.overBudget a b) => obj [("err", Json.str "overBudget"), ("detail", intsToJson [a, b])]
+
+def redistOp {α} (score : Json → R α)
+    (new old running : Int → List (Nat × Nat × α) → Except Err (List (Nat × List (Nat × Int))))
+    (j : Json) : R Json := do
+  let k ← getInt j "rank"
+  let axes ← asListOf (parseAxis score) (← field j "axes")
+  let variant := match fieldD j "variant" (Json.str "new") with
+    | .str s => s
+    | _ => "new"
+  if variant == "old" then pure (resultJson (old k axes))
+  else if variant == "running" then pure (resultJson (running k axes))
+  else pure (resultJson (new k axes))
+
+def ops : List Op := [
+  ("redist_f64", redistOp asFloat createRedistFloat createRedistOldFloat createRedistRunningFloat),
+  ("redist_f32", redistOp asFloat32 createRedistFloat32 createRedistOldFloat32 createRedistRunningFloat32),
+  ("redist_rat", redistOp asRat createRedistRat createRedistOldRat createRedistRunningRat)
+]
 
 end PrecondVerif.Drv.C17
